@@ -341,6 +341,10 @@ UNITS += [
          ),
 ]
 
+# repair index queues the packs whose headers are re-read with the size PackHeader::from_file is given: the unit lives in C12's
+# spec (PackChecker::check_pack) and is verified as part of this check as well
+SATELLITES = [("C12", ["NodeAction", "ModifierChange", "ModifierAction", "TreeAction", "RewriteVisitor", "repair_index_check_pack"])]
+
 KANI = [
     Harness("repofile::packfile::verif_kani::c08_bounded_header_sizes", kind="bounded",
             bound="blob lists of length 1 or 2; ids, lengths (< 1e6), compressed/uncompressed mix and types symbolic",
